@@ -58,6 +58,11 @@ func (g *Gen) size() DataSpec {
 			if r.Chance(1, 6) {
 				return DataSpec{Gen: true, Len: 200*1024 + r.Intn(5), Seed: r.U64()}
 			}
+			if r.Chance(1, 12) {
+				// beyond one 1 MiB block, not a multiple of it (block-wise copy/zero loops)
+				g.count("data:over-1MiB")
+				return DataSpec{Gen: true, Len: 1<<20 + pick(r, []int{1, 4097, 300000}), Seed: r.U64()}
+			}
 		case 4:
 			// sparse payloads: whole blocks of zeros at the block sizes copy loops and sparse-file
 			// logic use (512, 4 KiB, the 32 KiB io.Copy buffer, 64 KiB), incl. all-zero tails
@@ -336,8 +341,8 @@ func (g *Gen) createOp() *Op {
 	crowded := false
 	if g.p.MaxCap > 0 && r.Chance(1, 30) {
 		// a crowded image: a descriptor table larger than the 32 KiB and 64 KiB buffers I/O layers
-		// use (57+ and 113+ slots), nearly or exactly full
-		cap = pick(r, []int{57, 64, 113, 120})
+		// use (57+ and 113+ slots; 130 and 200 exceed a 128-entry batch), nearly or exactly full
+		cap = pick(r, []int{57, 64, 113, 120, 130, 200})
 		n = cap - pick(r, []int{0, 1, 1, 2, 8})
 		for k := range op.COpts {
 			if op.COpts[k].Kind == "cap" {
@@ -683,6 +688,15 @@ func (g *Gen) selector(in imgInfo) Sel {
 	case 7:
 		return Sel{Kind: "pt", N: int64(r.Intn(6))}
 	default:
+		if len(in.ociDigest) > 0 && r.Chance(1, 4) {
+			// a digest text that is only a prefix of a recorded one (abbreviated, one digit short, bare algorithm)
+			d := pick(r, in.ociDigest)
+			cut := pick(r, []int{7, 8, 19, len(d) - 1, len(d) - 2})
+			if cut > 0 && cut < len(d) {
+				g.count("q:oci-digest-prefix")
+				return Sel{Kind: "oci", B: append([]byte(nil), d[:cut]...)}
+			}
+		}
 		if len(in.ociDigest) > 0 && r.Chance(2, 3) {
 			return Sel{Kind: "oci", B: pick(r, in.ociDigest)}
 		}
